@@ -501,5 +501,31 @@ theorem C01_inline_conds_source :
           (["len(p) > 0"], ["len(exprs) > 0"], ["p[1:]...", "p[0]"]),
           ([], ["len(p) > 0"], []) ] := by decide
 
-end Gorm
 
+/-- a template literal whose text is not a constant and not a quoted identifier -/
+def templateVariable (t : Gen.TemplateSite) : Bool :=
+  !(t.sql.toList.head? == some '"') && !(containsSub t.sql.toList "Quote(".toList)
+
+/-- every place in gorm / gorm/callbacks that wraps a VARIABLE text into `clause.Expr{…}` / `clause.NamedExpr{…}`
+    gives it the arguments that travel with that text (no template is built from caller text without its `Vars`) … -/
+theorem C01_template_sites_carry_vars : ∀ t ∈ Gen.templateSites, templateVariable t = true → t.vars ≠ "" := by decide
+
+/-- … and these places are: the text/argument pairs the model's entry points transcribe (`rawDispatch` Raw/Exec,
+    `selectDispatch`, `tableDispatch`, `rawJoinDispatch` join.Name/join.Conds, `buildCondStr`, `Val.rsub` AddVar,
+    `joinOnExpr` onSQL/vars, gorm.Expr) plus the many2many join-table condition of association.go -/
+theorem C01_template_sites :
+    (Gen.templateSites.filter templateVariable).map (fun t => (t.site, t.sql, t.vars)) =
+      [ ("association.go:Association.buildCondition", "strings.Replace(joinStmt.SQL.String(), \"WHERE \", \"\", 1)", "joinStmt.Vars"),
+        ("callbacks/query.go:BuildQuerySQL", "onSQL", "vars"),
+        ("callbacks/query.go:BuildQuerySQL", "join.Name", "join.Conds"),
+        ("callbacks/query.go:BuildQuerySQL", "join.Name", "join.Conds"),
+        ("chainable_api.go:DB.Raw", "sql", "values"), ("chainable_api.go:DB.Raw", "sql", "values"),
+        ("chainable_api.go:DB.Select", "v", "args"), ("chainable_api.go:DB.Select", "v", "args"), ("chainable_api.go:DB.Select", "v", "args"),
+        ("chainable_api.go:DB.Table", "name", "args"),
+        ("finisher_api.go:DB.Exec", "sql", "values"), ("finisher_api.go:DB.Exec", "sql", "values"),
+        ("gorm.go:Expr", "expr", "args"),
+        ("statement.go:Statement.AddVar", "sql", "vars"), ("statement.go:Statement.AddVar", "sql", "vars"),
+        ("statement.go:Statement.BuildCondition", "s", "args"), ("statement.go:Statement.BuildCondition", "s", "args"),
+        ("statement.go:Statement.BuildCondition", "s", "args") ] := by decide
+
+end Gorm
